@@ -57,8 +57,8 @@ def gen_plan(seed, tier, index):
                 ln['range'] = 'extreme'
             elif x < 0.2:
                 ln['range'] = 'logprob'
-            if r.random() < 0.1:
-                ln['chars_variant'] = True
+            if r.random() < 0.12:
+                ln['chars_variant'] = r.choice([True, 'samejoin'])
     ops = []
     saved = []
     fault_free = r.random() < 0.4
